@@ -61,8 +61,14 @@ TopCases(f) ==
 LenCases(f) ==
   { Mk(f, "len", "len", t[1], 0, TRUE, FALSE, 0) : t \in Targets(f, {0}) }
 
+CovCases(f) ==
+  IF f.scol THEN {} ELSE
+  { Mk(f, "cov", o, t, 0, TRUE, FALSE, 0) : o \in {"cov", "corr"}, t \in {"frame"} \cup (IF Len(f.cols) >= 2 THEN {"series"} ELSE {}) }
+DescCases(f) ==
+  IF f.scol THEN {} ELSE { Mk(f, "desc", "describe", t, 0, TRUE, FALSE, 0) : t \in {"frame", "series"} }
+
 CasesOf(f) == { c \in FoldCases(f) : FoldCasesOK(c) } \cup RatCases(f) \cup IdxCases(f) \cup NuniqCases(f)
-              \cup VCCases(f) \cup ModeCases(f) \cup TopCases(f) \cup LenCases(f)
+              \cup VCCases(f) \cup ModeCases(f) \cup TopCases(f) \cup LenCases(f) \cup CovCases(f) \cup DescCases(f)
 
 RowCounts == { Len(f.rows) : f \in Fills }
 LayoutCases == { [fam |-> "layouts", n |-> n] : n \in RowCounts }
@@ -189,6 +195,34 @@ TopDecomposes ==
             sel  == Top([j \in DOMAIN cat |-> FirstCol[cat[j]]], case.p, case.op = "nlargest")
         IN [j \in DOMAIN sel |-> cat[sel[j]]] = Top(FirstCol, case.p, case.op = "nlargest")
 
+\* cov / corr: symmetric; cov(x, x) = var(x); |corr| <= 1 and corr(x, x) = 1 where defined; and cov
+\* decomposes over partitions through the sums (n, Sx, Sy, Sxy) of the pairwise-complete rows
+CovSane ==
+  (Judged({"cov"}) /\ case.tgt = "frame") =>
+     LET nc == Len(case.cols)
+         at(i, j) == exp.v[(i - 1) * nc + j]
+     IN \A i, j \in 1..nc :
+           /\ at(i, j) = at(j, i)
+           /\ (i = j /\ case.op = "cov") => at(i, i) = RatFold("var", Col(case.rows, case.cols[i]), TRUE, 1)
+           /\ (case.op = "corr" /\ at(i, j) # RNaN) => (RAbs(at(i, j)[1]) <= at(i, j)[2] /\ (i = j => at(i, j) = <<1, 1>>))
+CovDecomposes ==
+  (Judged({"cov"}) /\ case.tgt = "series" /\ case.op = "cov") =>
+     \A lay \in Lay :
+        LET x  == FirstCol
+            y  == Col(case.rows, case.cols[2])
+            px == PartsOf(x, lay)
+            py == PartsOf(y, lay)
+            sums(b) == LET ps == PairPos(px[b], py[b]) IN
+                       << Len(ps), SumSeq([j \in DOMAIN ps |-> px[b][ps[j]]]), SumSeq([j \in DOMAIN ps |-> py[b][ps[j]]]),
+                          SumSeq([j \in DOMAIN ps |-> px[b][ps[j]] * py[b][ps[j]]]) >>
+            tot(k) == SumSeq([b \in DOMAIN lay |-> sums(b)[k]])
+        IN Scalar = IF tot(1) < 2 THEN RNaN ELSE RNorm(tot(1) * tot(4) - tot(2) * tot(3), tot(1) * (tot(1) - 1))
+DescribeAgrees ==
+  (Judged({"desc"}) /\ case.tgt = "series") =>
+     /\ exp.v[1] = RInt(Len(Valid(FirstCol)))
+     /\ exp.v[2] = RatFold("mean", FirstCol, TRUE, 0)
+     /\ exp.v[3] = RatFold("var", FirstCol, TRUE, 1)
+
 \* --- independent characterisations
 CountPlusNA == (Judged({"fold"}) /\ OneLane /\ case.op = "count") =>
                   Scalar + Cardinality({ j \in DOMAIN FirstCol : FirstCol[j] = NA }) = Len(case.rows)
@@ -211,5 +245,6 @@ ShapeOK == (done /\ case.fam # "layouts" /\ ~exp.err) =>
                 [] exp.k = "rids"   -> Len(exp.v) = Len(exp.ix) /\ Cardinality(Rng(exp.v)) = Len(exp.v)
                 [] exp.k = "vc"     -> Len(exp.v) = Len(exp.ix)
                 [] exp.k = "table"  -> Len(exp.v) % Len(case.cols) = 0
+                [] exp.k = "matrix" -> Len(exp.v) = Len(case.cols) * Len(case.cols)
                 [] OTHER            -> TRUE
 =============================================================================
